@@ -220,7 +220,28 @@ fn log_op(ix: usize, pc: usize, k: &str, r: i64) {
     }
 }
 
+/// A value owned by every task: captured by its closure / future when it is spawned and moved onto the task's
+/// stack when it starts.  All of them must be gone once the execution has been torn down (C14).
+pub struct Token(u64);
+
+impl Token {
+    pub fn new() -> Self {
+        crate::rec::TOK_LIVE.fetch_add(1, StdOrdering::SeqCst);
+        Token(crate::rec::TOK_EPOCH.load(StdOrdering::SeqCst))
+    }
+}
+
+impl Drop for Token {
+    fn drop(&mut self) {
+        // tokens of an earlier execution (leaked by a failing one and released later, if ever) do not count
+        if self.0 == crate::rec::TOK_EPOCH.load(StdOrdering::SeqCst) {
+            crate::rec::TOK_LIVE.fetch_sub(1, StdOrdering::SeqCst);
+        }
+    }
+}
+
 pub fn run_main(prog: Arc<Prog>) {
+    let _tk = Token::new();
     for k in 0..2 {
         TLS_TOUCH[k].store(prog.tls_touch.get(k).copied().unwrap_or(-1), StdOrdering::Relaxed);
         TLS_YIELD[k].store(prog.tls_yield.get(k).copied().unwrap_or(0) != 0, StdOrdering::Relaxed);
@@ -275,7 +296,11 @@ pub fn run_task(w: Arc<World>, ix: usize) -> i64 {
                     let r = if op2.k == "sspawn" {
                         let child = op2.v as usize;
                         let w2 = Arc::clone(&w);
-                        let h = sc.spawn(move || run_task(w2, child));
+                        let tk = Token::new();
+                        let h = sc.spawn(move || {
+                            let _tk = tk;
+                            run_task(w2, child)
+                        });
                         let tid: usize = h.thread().id().into();
                         *wr.threads[child].get() = Some(h.thread().clone());
                         tid as i64
@@ -308,7 +333,11 @@ fn exec_op<'a>(warc: &Arc<World>, w: &'a World, _ix: usize, op: &Op, guards: &mu
         "spawn" => {
             let child = op.v as usize;
             let w2 = Arc::clone(warc);
-            let h = thread::spawn(move || run_task(w2, child));
+            let tk = Token::new();
+            let h = thread::spawn(move || {
+                let _tk = tk;
+                run_task(w2, child)
+            });
             let tid: usize = h.thread().id().into();
             *w.threads[child].get() = Some(h.thread().clone());
             *w.handles[child].get() = Some(h);
@@ -388,7 +417,8 @@ fn exec_op<'a>(warc: &Arc<World>, w: &'a World, _ix: usize, op: &Op, guards: &mu
         "spawn_named" => {
             let child = op.v as usize;
             let w2 = Arc::clone(warc);
-            let h = thread::Builder::new().name(format!("t{child}")).spawn(move || run_task(w2, child)).unwrap();
+            let tk = Token::new();
+            let h = thread::Builder::new().name(format!("t{child}")).spawn(move || { let _tk = tk; run_task(w2, child) }).unwrap();
             let tid: usize = h.thread().id().into();
             *w.threads[child].get() = Some(h.thread().clone());
             *w.handles[child].get() = Some(h);
@@ -423,7 +453,11 @@ fn exec_op<'a>(warc: &Arc<World>, w: &'a World, _ix: usize, op: &Op, guards: &mu
             let child = op.v as usize;
             let w2 = Arc::clone(warc);
             let n = w.prog.tasks[child].len();
-            let h = shuttle::future::spawn_local(run_async(w2, child, 0, n, true));
+            let tk = Token::new();
+            let h = shuttle::future::spawn_local(async move {
+                let _tk = tk;
+                run_async(w2, child, 0, n, true).await
+            });
             *w.aborts[child].get() = Some(h.abort_handle());
             *w.fhandles[child].get() = Some(h);
             0
